@@ -32,6 +32,8 @@ pub struct Swarm {
     pub external: bool,
     /// the client sometimes sends several messages without waiting for the server
     pub bursts: bool,
+    /// the client opens and edits `oal.toml` itself (without saving)
+    pub toml_edits: bool,
     /// 0: mixture; 1: each module on one very long line; 2: one token per line
     pub shape: u8,
     /// plain layout (single spaces, one statement per line, no comments): identifiers of
@@ -57,6 +59,7 @@ pub fn swarm(rng: &mut Rng) -> Swarm {
         second_folder: rng.chance(1, 4),
         external: rng.chance(1, 3),
         bursts: rng.chance(1, 2),
+        toml_edits: rng.chance(1, 4),
         aligned: rng.chance(1, 3),
         shape: *rng.pick(&[0, 0, 0, 0, 0, 0, 1, 2]),
     }
@@ -167,7 +170,12 @@ pub fn inject_error(files: &Files, rng: &mut Rng) -> (&'static str, Files) {
         }
         _ => {
             let t = f.get_mut("main.oal").unwrap();
-            if rng.chance(1, 2) {
+            if rng.chance(1, 3) {
+                // numbers that are no status, among them some that look like one after a
+                // narrowing conversion (see `cli_sim::certainly_invalid`)
+                let n: u64 = *rng.pick(&[0, 99, 600, 999, 65535, 65736, 65940, 131272, 4294967496, 4295032936, 18446744073709551]);
+                t.push_str(&format!("{nl}res /zz-no-such-status on get -> <status={n}, {{}}>;{nl}"));
+            } else if rng.chance(1, 2) {
                 t.push_str(&format!("{nl}res /bad-status on get -> <status=999, {{}}>;{nl}"));
             } else {
                 t.push_str(&format!("{nl}res /bad-ann on get -> <{{}}> `: : :`;{nl}"));
@@ -394,6 +402,8 @@ struct Builder<'a> {
     deleted: BTreeMap<String, String>,
     /// states the second folder's files alternate between
     b_variants: Vec<Files>,
+    /// where the last prepareRename was asked (a rename often follows at the same place)
+    prepared: Option<(String, Pos)>,
 }
 
 impl Builder<'_> {
@@ -425,6 +435,14 @@ impl Builder<'_> {
         }
         let kind = *self.sched.pick(&[ReqKind::Definition, ReqKind::References, ReqKind::PrepareRename, ReqKind::Rename]);
         let new_name = if kind == ReqKind::Rename { Some(format!("fresh_{}", self.sched.below(100))) } else { None };
+        let (path, pos) = match (&self.prepared, kind) {
+            // the rename that follows a prepareRename, whatever else happened in between
+            (Some((p, q)), ReqKind::Rename) if self.effective(p).is_some() && self.sched.chance(2, 3) => (p.clone(), *q),
+            _ => (path, pos),
+        };
+        if kind == ReqKind::PrepareRename {
+            self.prepared = Some((path.clone(), pos));
+        }
         if self.sw.rename_loops && kind == ReqKind::Rename && self.sched.chance(1, 2) {
             // the closed loop edits buffers: track the result lazily (the executor is the
             // source of truth; the plan only needs buffers to compute later diffs, so a
@@ -440,6 +458,39 @@ impl Builder<'_> {
         // one request in four is not waited for: the next notification follows it at once
         let pipelined = self.sched.chance(1, 4);
         self.events.push(Ev::Request { kind, path, pos, new_name, pipelined });
+    }
+    /// The client opens the folder's `oal.toml` like any other document, edits it — never
+    /// saving: what is on disk stays what the folder was configured with — and closes it.
+    fn toml_event(&mut self) {
+        let p = "oal.toml".to_string();
+        match self.open.get(&p).cloned() {
+            None => {
+                self.open.insert(p.clone(), CONFIG.to_string());
+                self.events.push(Ev::Open { path: p, text: CONFIG.to_string() });
+            }
+            Some(cur) if self.sched.chance(2, 3) => {
+                let others: Vec<String> = self.disk.keys().filter(|k| !k.ends_with("main.oal")).cloned().collect();
+                let tgt = match self.sched.below(5) {
+                    0 => CONFIG.to_string(),
+                    1 | 2 if !others.is_empty() => format!("[api]\nmain = \"{}\"\ntarget = \"out.yaml\"\n", self.sched.pick(&others)),
+                    3 => "[api\nmain = ".to_string(),
+                    4 => String::new(),
+                    _ => format!("{CONFIG}# note\n"),
+                };
+                let mut t = cur.clone();
+                for changes in make_edits(&cur, &tgt, self.sw, self.sched) {
+                    for c in &changes {
+                        position::apply_change(&mut t, c.range, &c.text);
+                    }
+                    self.events.push(Ev::Change { path: p.clone(), changes });
+                }
+                self.open.insert(p, t);
+            }
+            Some(_) => {
+                self.open.remove(&p);
+                self.events.push(Ev::Close { path: p });
+            }
+        }
     }
     /// Events drawn from the schedule stream between two client notifications.
     fn interleave(&mut self) {
@@ -551,6 +602,14 @@ impl Builder<'_> {
                 }
             }
         }
+        if self.sw.toml_edits && self.sched.chance(1, 10) && !self.full() {
+            self.toml_event();
+        }
+        if self.sched.chance(1, 25) && !self.full() {
+            // what every editor sends besides: the server has no handler for it
+            let kind = self.sched.below(5) as u8;
+            self.events.push(Ev::Noise { kind });
+        }
         if self.sw.bursts && self.sched.chance(1, 5) && !self.full() {
             // the client stops waiting for a while
             let n = self.sched.range(2, 5) as u8;
@@ -632,7 +691,7 @@ pub fn plan(seed: u64, prop: &str, run: u64, sem: Sem) -> Plan {
     }];
     let ntargets = wl.range(1, 6);
     for _ in 0..ntargets {
-        let k = wl.weighted(&[3, 4, 2, 2, 3]);
+        let k = wl.weighted(&[3, 4, 2, 2, 3, 2]);
         let t = match k {
             0 => {
                 let l = layout(&mut wl, &sw);
@@ -666,6 +725,24 @@ pub fn plan(seed: u64, prop: &str, run: u64, sem: Sem) -> Plan {
             3 => {
                 let back = targets[0].clone();
                 Target { kind: "back_to_base", ..back }
+            }
+            5 => {
+                // the latest state with one more declaration on top of an imported module: the
+                // program means what it meant, every syntax node of that module moves
+                let prev = targets.last().unwrap().files.clone();
+                let mut f = prev.clone();
+                let others: Vec<String> = f.keys().filter(|p| !p.ends_with("main.oal")).cloned().collect();
+                let p = if others.is_empty() { "main.oal".to_string() } else { wl.pick(&others).clone() };
+                if let Some(t) = f.get_mut(&p) {
+                    let nl = if t.contains("\r\n") { "\r\n" } else { "\n" };
+                    let at = if t.starts_with('\u{feff}') { 3 } else { 0 };
+                    t.insert_str(at, &format!("let zz_extra{} = {{ 'zz num }};{nl}", wl.below(1000)));
+                }
+                Target {
+                    files: f,
+                    program: None,
+                    kind: "declaration_added_on_top",
+                }
             }
             _ => {
                 // byte-offset preserving re-layout of the latest state (often an erroneous one)
@@ -728,6 +805,7 @@ pub fn plan(seed: u64, prop: &str, run: u64, sem: Sem) -> Plan {
         folder_b_present: sw.second_folder || shared_folder,
         deleted: BTreeMap::new(),
         b_variants,
+        prepared: None,
     };
     let mut reached = BTreeMap::new();
     for (ti, tgt) in targets.iter().enumerate() {
@@ -736,9 +814,40 @@ pub fn plan(seed: u64, prop: &str, run: u64, sem: Sem) -> Plan {
         }
         let mut paths: Vec<String> = tgt.files.keys().cloned().collect();
         b.sched.shuffle(&mut paths);
+        // now and then: prepareRename in the document that will be edited last, the rename
+        // itself at the same place once another document has changed
+        let mut probe: Option<(String, Pos)> = None;
+        if !semantic && paths.len() >= 2 && b.sched.chance(1, 3) {
+            let x = paths.last().unwrap().clone();
+            if let Some(text) = b.effective(&x).cloned() {
+                // preferably the member of a qualified name: it is declared in another module
+                let bytes = text.as_bytes();
+                let members: Vec<usize> = (1..bytes.len().saturating_sub(1))
+                    .filter(|i| bytes[*i] == b'.' && bytes[*i - 1].is_ascii_alphanumeric() && bytes[*i + 1].is_ascii_alphabetic())
+                    .map(|i| i + 1)
+                    .collect();
+                let words: Vec<usize> = (0..bytes.len()).filter(|i| bytes[*i].is_ascii_alphabetic() && (*i == 0 || bytes[*i - 1] == b' ')).collect();
+                let pool = if !members.is_empty() && b.sched.chance(3, 4) { &members } else { &words };
+                if !pool.is_empty() {
+                    let off = *b.sched.pick(pool);
+                    let pos = position::to_pos(&text, off);
+                    b.events.push(Ev::Request { kind: ReqKind::PrepareRename, path: x.clone(), pos, new_name: None, pipelined: false });
+                    probe = Some((x, pos));
+                }
+            }
+        }
         for p in paths {
             if b.full() {
                 break;
+            }
+            if let Some((x, pos)) = probe.clone() {
+                // (`x` is the last to be edited: it has not changed even when it is its turn)
+                if b.events.iter().rev().take_while(|e| !matches!(e, Ev::Request { kind: ReqKind::PrepareRename, .. })).any(|e| matches!(e, Ev::Change { .. })) {
+                    // something else changed meanwhile; `x` itself did not
+                    let new_name = Some(format!("fresh_{}", b.sched.below(100)));
+                    b.events.push(Ev::Request { kind: ReqKind::Rename, path: x, pos, new_name, pipelined: false });
+                    probe = None;
+                }
             }
             let want = &tgt.files[&p];
             if b.effective(&p) == Some(want) {
